@@ -91,7 +91,9 @@ var ops = []opSpec{
 		}},
 	{"Locate", kmip.OperationLocate,
 		func() kmip.OperationPayload { return &payloads.LocateRequestPayload{} },
-		func() kmip.OperationPayload { return &payloads.LocateResponsePayload{UniqueIdentifier: []string{"a", "b"}} },
+		func() kmip.OperationPayload {
+			return &payloads.LocateResponsePayload{UniqueIdentifier: []string{"a", "b"}}
+		},
 		func(cl *kmipclient.Client, ctx context.Context) (kmip.OperationPayload, error) {
 			return wrap(cl.Locate().ExecContext(ctx))
 		}},
